@@ -390,7 +390,7 @@ func bitsOf(mask byte) int {
 
 var byteClasses = []string{
 	"valid", "valid", "flag", "flag", "flag", "coord+p", "coord+p", "len-1", "len+1", "empty", "allff", "zero",
-	"random", "random", "random-len", "twist", "offcurve", "p-exact", "bitflip",
+	"random", "random", "random-len", "twist", "offcurve", "p-exact", "p+small", "bitflip",
 }
 
 // hostilePayload derives a payload of the inner format from a valid model encoding.
@@ -440,6 +440,25 @@ func hostilePayload(t *rapid.T, g *group, inner string, e element, class string)
 			return o2, fmt.Sprintf("coord=p[%d]", i)
 		}
 		return out, fmt.Sprintf("coord=0[%d]", i)
+	case "p+small":
+		// a coordinate p + j with j in 0..18: the non-canonical encodings of the smallest field elements
+		// (on the 25519 curves these are all the values in [p, 2^255))
+		i := rapid.IntRange(0, len(fields)-1).Draw(t, "field")
+		j := int64(rapid.IntRange(0, 18).Draw(t, "j"))
+		out := append([]byte(nil), valid...)
+		f := fields[i]
+		v := new(big.Int).Add(m.P, big.NewInt(j))
+		var nb []byte
+		msb := 0
+		if f.le {
+			nb = toLE(v, f.n)
+			msb = f.n - 1
+		} else {
+			nb = toBE(v, f.n)
+		}
+		nb[msb] |= out[f.off+msb] &^ f.mask
+		copy(out[f.off:], nb)
+		return out, fmt.Sprintf("coord=p+small[%d]", i)
 	case "len-1":
 		return valid[:len(valid)-1], class
 	case "len+1":
